@@ -38,6 +38,10 @@ fn build(plan: &Arc<Plan>, t: &Value) -> DTrack {
     b.build().expect("build track")
 }
 
+fn owned_flag(sc: &Value) -> bool {
+    jbool(sc, "owned")
+}
+
 pub struct Outcome {
     pub ok: Vec<Value>,
     pub err: Vec<Value>,
@@ -62,7 +66,14 @@ pub fn run_query(ctl: &Arc<Ctl>, sc: &Value, ns: usize, sched: Option<&Vec<Value
     let owned = jbool(sc, "owned");
     let cls = jint(sc, "cls") as u64;
     let baked = jbool(sc, "baked");
-    let cand_ids: Vec<u64> = jarr(sc, "cands").iter().map(|c| jint(c, "id") as u64).collect();
+    let mut cand_ids: Vec<u64> = jarr(sc, "cands").iter().map(|c| jint(c, "id") as u64).collect();
+    if let Some(k) = sc.get("absent").map(ji) {
+        // an id that is not stored, listed among the owned candidates (before the k-th one): the query is that of the
+        // stored ones (the specification's scenario does not change)
+        if k > 0 && owned_flag(sc) {
+            cand_ids.insert((k as usize - 1).min(cand_ids.len()), 77);
+        }
+    }
     let ext: Vec<DTrack> = if owned && !abandon { vec![] } else { jarr(sc, "cands").iter().map(|c| build(&plan, c)).collect() };
     ctl.reset();
     if let Some((seed, us)) = delays {
@@ -246,7 +257,8 @@ pub fn record(opts: &Opts) {
         }
         let limit = [1, 3, 10][rng.gen_range(0..3)];
         let sc = json!({"tracks": tracks, "cands": cands, "owned": owned, "cls": rng.gen_range(0..2),
-                        "baked": rng.gen_bool(0.4), "limit": limit, "post": if k % 3 == 2 { "best" } else { "all" }});
+                        "baked": rng.gen_bool(0.4), "limit": limit, "post": if k % 3 == 2 { "best" } else { "all" },
+                        "absent": if owned && k % 4 == 1 { 1 + (k / 4) % 2 } else { 0 }});
         let o = run_query(&ctl, &sc, ns, None, Some((seed * 1000 + k as u64, max_us)), k % 2 == 1, k % 5 == 4, 0);
         if o.hang {
             hangs += 1;
